@@ -1,4 +1,5 @@
 import Bip39V.Props.C03
+import Bip39V.Model.Stringer
 /-! # C15 — validation errors identify the kind of failure
 
 `tokens s := splitOn 0x20 (X s)`; the three error outcomes of the model are the three Go return
